@@ -223,3 +223,19 @@ c.cases([{'p': 'dd', 'q': 'ds', 'r': 'sd'}, {'p': 'sd', 'q': 'dd', 'r': 'dd'}])
 DEN_R = '(field_matches(_rh, H) and field_matches(_rm, M))'
 c.ensures('exactly-the-union-of-all-three', 'iff(result[0], %s or %s or %s)' % (DEN_P, DEN_Q, DEN_R))
 c.ensures('operands-unchanged', 'iff(result[1], %s) and iff(result[2], %s)' % (DEN_Q, DEN_R))
+
+
+# ---- the compiler's literal reader: a pattern text that can never match a time yields no constant (and a message),
+#      whichever statement it appears in (define p 24:00 / time at p must not compile into a wait that never ends)
+from . import parserlib as PL
+for text, valid, hit, miss in (('12:30', True, (12, 30), (12, 31)), ('*:15', True, (7, 15), (7, 16)), ('2*:*5', True, (23, 45), (19, 45)),
+                               ('24:00', False, None, None), ('7:60', False, None, None), ('3*:00', False, None, None), ('0:6*', False, None, None)):
+    c = contract('bardolph/parser/parse.py', 'Parser._current_literal', serves=['C11', 'C06'], name='Parser._current_literal[TIME_PATTERN %s]' % text)
+    def _setup(b, case, text=text):
+        pr = PL.parser(b, first_token=PL.concrete_token(b.I, 'TIME_PATTERN', text))
+        return {'self': pr}
+    c.setup(_setup)
+    if valid:
+        c.ensures('the-pattern-it-spells', "result.match(%d, %d) and not result.match(%d, %d) and self._error_output == ''" % (hit + miss))
+    else:
+        c.ensures('no-constant-and-a-message', "result is None and self._error_output != ''")
